@@ -291,3 +291,17 @@ func (e *Env) Permuted(pkg, name string, fn *ssa.Function, mk func() []pred.Val)
 		return out
 	}
 }
+
+// Unpermuted returns the arguments of a call to fn in the recorded parameter order of anchor pkg.name (the inverse of
+// Permuted), so that summaries can describe calls independently of a reordering of the callee's parameters.
+func (e *Env) Unpermuted(pkg, name string, fn *ssa.Function, args []pred.Val) []pred.Val {
+	perm := e.ParamPerm(pkg, name, fn)
+	if perm == nil || len(perm) != len(args) {
+		return args
+	}
+	out := make([]pred.Val, len(args))
+	for i, j := range perm {
+		out[i] = args[j]
+	}
+	return out
+}
